@@ -161,6 +161,80 @@ type DefNaN float64
 
 func (d *DefNaN) InitDefaults() { *d = DefNaN(math.NaN()) }
 
+// Map types whose InitDefaults inserts the entry initKey: a value its element
+// type accepts (DefPorts, DefLimits) or one it rejects (DefPortsBad: Port 0;
+// DefLimitsBad: Max 0 breaks min=1 of the `validate` tag).
+const initKey = "dflt"
+
+type Limit struct {
+	Max int `config:"max" validate:"min=1" check:"max=90"`
+}
+
+type DefPorts map[string]Port
+
+func (m DefPorts) InitDefaults() { m[initKey] = 8080 }
+
+type DefPortsBad map[string]Port
+
+func (m DefPortsBad) InitDefaults() { m[initKey] = 0 }
+
+type DefLimits map[string]Limit
+
+func (m DefLimits) InitDefaults() { m[initKey] = Limit{Max: 3} }
+
+type DefLimitsBad map[string]Limit
+
+func (m DefLimitsBad) InitDefaults() { m[initKey] = Limit{Max: 0} }
+
+// mapInit: what InitDefaults of the map type stores under initKey - the entry
+// itself (scalar elements) or the named field of the entry.
+func mapInit(lib string) (field string, v interface{}) {
+	switch lib {
+	case "DefPorts":
+		return "", int64(8080)
+	case "DefPortsBad":
+		return "", int64(0)
+	case "DefLimits":
+		return "Max", int64(3)
+	case "DefLimitsBad":
+		return "Max", int64(0)
+	}
+	return "", nil
+}
+
+// UTagged: ucfg.ConfigUnpacker (merges the setting into the field it holds,
+// validates nothing itself) whose field carries validator tags.
+type UTagged struct {
+	N int `config:"n" validate:"min=5" check:"max=3"`
+}
+
+func (u *UTagged) Unpack(c *ucfg.Config) error {
+	tmp := struct {
+		N int `config:"n"`
+	}{u.N}
+	if err := c.Unpack(&tmp, ucfg.PathSep("."), ucfg.VarExp); err != nil {
+		return err
+	}
+	u.N = tmp.N
+	return nil
+}
+
+// Key: a map key type with a Validate of its own.
+type Key string
+
+func (k Key) Validate() error {
+	if strings.HasPrefix(string(k), "bad") {
+		return errors.New("c04lib: key starts with bad")
+	}
+	return nil
+}
+
+// Node: a struct that can be linked into a cycle through its own pointers.
+type Node struct {
+	V    int   `config:"v" validate:"min=0"`
+	Next *Node `config:"next"`
+}
+
 // WithDefaults: InitDefaults yields an N that is valid under the `validate`
 // tag and invalid under the `check` tag (see ValidatorTag).
 type WithDefaults struct {
@@ -257,6 +331,14 @@ var (
 	tPair            = reflect.TypeOf(Pair{})
 	tHidden          = reflect.TypeOf(Hidden{})
 	tURange          = reflect.TypeOf(URange{})
+	tUTagged         = reflect.TypeOf(UTagged{})
+	tNode            = reflect.TypeOf(Node{})
+	tLimit           = reflect.TypeOf(Limit{})
+	tKey             = reflect.TypeOf(Key(""))
+	tDefPorts        = reflect.TypeOf(DefPorts(nil))
+	tDefPortsBad     = reflect.TypeOf(DefPortsBad(nil))
+	tDefLimits       = reflect.TypeOf(DefLimits(nil))
+	tDefLimitsBad    = reflect.TypeOf(DefLimitsBad(nil))
 )
 
 type validator interface{ Validate() error }
